@@ -7,7 +7,7 @@ Every one of these functions is therefore matched against its expected text (doc
 comments aside, compared through a hash of ast.unparse); anything else is a ShapeError
 (fail-closed: the check then reports the broken tie and searches for a failing input).
 
-Four defects have two recognised shapes each, selected by a boolean the model takes as a parameter:
+Six defects have two recognised shapes each, selected by a boolean the model takes as a parameter:
 
   c09_power_returns_kind   false <-> KindInferenceMapper.map_power has no return statement
                            true  <-> ... ends with `return self.map_product_like((expr.base, expr.exponent))`
@@ -17,11 +17,20 @@ Four defects have two recognised shapes each, selected by a boolean the model ta
                            true  <-> ... `except Exception: print(...); raise`
   c09_isnan_any            false <-> builtin_isnan: `return np.isnan(x)`
                            true  <-> ... `return np.isnan(x).any()`
+  c09_finder_restarts      false <-> SymbolKindFinder.__call__: the `if not made_progress:` block of the work-list
+                                     loop starts with the "Left-over statements" report
+                           true  <-> ... starts with `if result.is_changed(): break` (c2c8c5a); the rest of the
+                                     body is the same pinned text in both shapes
+  c09_matrix_need_arrays   false <-> MatMul/Transpose/LinearSolve/SVD.get_result_kinds read `.is_real_valued` of
+                                     whatever kind the matrix arguments have
+                           true  <-> ... raise UnableToInferKind first unless the matrix arguments are Arrays
+                                     (47d5901); all four must have the same shape
 
 Declarative facts: the prefixes of is_state_variable, the interpreter's persistence test, and the
 (identifier, arg_names, number of results) table of the built-in functions registered in _make_bfr.
 """
 import ast
+import copy
 import hashlib
 
 from harness.tr import (HEADER, ShapeError, _find_class, _find_def, _parse, _src, coq_bool, coq_string,
@@ -104,7 +113,6 @@ EXPECT = {
     ('dagrt/data.py', 'KindInferenceMapper', 'map_subscript'): '5eaff6223543074c',
     ('dagrt/data.py', 'KindInferenceMapper', 'map_sum'): 'fd496905173f0f3a',
     ('dagrt/data.py', 'KindInferenceMapper', 'map_variable'): '58636ea46ce8b293',
-    ('dagrt/data.py', 'SymbolKindFinder', '__call__'): '98a5aea11a4e5e1e',
     ('dagrt/data.py', 'SymbolKindTable', '__init__'): '435c0f5a366c9bbc',
     ('dagrt/data.py', 'SymbolKindTable', 'is_changed'): '0444078db550a0fa',
     ('dagrt/data.py', 'SymbolKindTable', 'reset_change_flag'): '2038eccb5f7690fa',
@@ -118,15 +126,24 @@ EXPECT = {
     ('dagrt/function_registry.py', 'Function', 'resolve_args'): 'f019774a5bd39afb',
     ('dagrt/function_registry.py', 'IsNaN', 'get_result_kinds'): '11d9cea37c9904c7',
     ('dagrt/function_registry.py', 'Len', 'get_result_kinds'): '5ae8a313c465fca6',
-    ('dagrt/function_registry.py', 'LinearSolve', 'get_result_kinds'): '9465138fb62114e3',
-    ('dagrt/function_registry.py', 'MatMul', 'get_result_kinds'): '0c934d440daffc27',
     ('dagrt/function_registry.py', 'Print', 'get_result_kinds'): '350145e90b12ecf5',
-    ('dagrt/function_registry.py', 'SVD', 'get_result_kinds'): '86b4f7bf36975e1c',
-    ('dagrt/function_registry.py', 'Transpose', 'get_result_kinds'): 'a5cce528efbdb09b',
     ('dagrt/function_registry.py', '_NormBase', 'get_result_kinds'): '8582ca56c9f3c803',
     ('dagrt/function_registry.py', '_ODERightHandSide', 'arg_names'): '3515c78f74a41367',
     ('dagrt/function_registry.py', '_ODERightHandSide', 'get_result_kinds'): '210659b3d94f08b2',
     ('dagrt/utils.py', None, 'resolve_args'): '412db2d02833a2c1',
+}
+
+# functions with two recognised texts: key -> (hash of the old text, hash of the repaired text)
+# SymbolKindFinder.__call__: without / with `if result.is_changed(): break` in front of the no-progress report
+FINDER_KEY = ('dagrt/data.py', 'SymbolKindFinder', '__call__')
+FINDER_SHAPES = ('98a5aea11a4e5e1e', '831318954e331efb')
+RESTART = "if result.is_changed():\n    break"
+# the matrix built-ins: reading `.is_real_valued` of any kind / unable unless the matrix arguments are Arrays
+MATRIX = {
+    ('dagrt/function_registry.py', 'MatMul', 'get_result_kinds'): ('0c934d440daffc27', 'a22c73f0a2a514d4'),
+    ('dagrt/function_registry.py', 'Transpose', 'get_result_kinds'): ('a5cce528efbdb09b', '6bb26d3354abeafb'),
+    ('dagrt/function_registry.py', 'LinearSolve', 'get_result_kinds'): ('9465138fb62114e3', '37cc76c2d142e6e3'),
+    ('dagrt/function_registry.py', 'SVD', 'get_result_kinds'): ('86b4f7bf36975e1c', 'ce5d9aace5e7dc8c'),
 }
 
 # aliases inside KindInferenceMapper the model relies on
@@ -149,7 +166,50 @@ def _get(trees, repo, rel, cls, name):
 
 def function_hashes(repo):
     trees = {}
-    return {k: _h(_body_src(_get(trees, repo, *k))) for k in EXPECT}
+    return {k: _h(_body_src(_get(trees, repo, *k))) for k in list(EXPECT) + [FINDER_KEY] + list(MATRIX)}
+
+
+def _where(k):
+    return "%s %s.%s" % (k[0], k[1] or "", k[2])
+
+
+def two_shape_switches(repo, got):
+    """(c09_finder_restarts, c09_matrix_need_arrays, complaints) from the hashes of the functions that have an
+    old and a repaired text.  The finder's repaired text must moreover be the old text plus
+    `if result.is_changed(): break` as the first statement of the `if not made_progress:` block."""
+    bad = []
+    restarts = None
+    g = got[FINDER_KEY]
+    if g == FINDER_SHAPES[0]:
+        restarts = False
+    elif g == FINDER_SHAPES[1]:
+        restarts = True
+        fn = copy.deepcopy(_get({}, repo, *FINDER_KEY))
+        try:
+            outer = [n for n in fn.body if isinstance(n, ast.While)][0]
+            inner = [n for n in outer.body if isinstance(n, ast.While)][0]
+            stuck = inner.body[0].body[0]
+            ok = (_src(inner.body[0].test) == "not stmt_queue" and _src(stuck.test) == "not made_progress"
+                  and ast.unparse(stuck.body[0]) == ast.unparse(ast.parse(RESTART)))
+            stuck.body = stuck.body[1:]
+        except (IndexError, AttributeError):
+            ok = False
+        if not ok or _h(_body_src(fn)) != FINDER_SHAPES[0]:
+            bad.append("%s: the repaired text is not the old text plus the restart test" % _where(FINDER_KEY))
+    else:
+        bad.append("%s: got %s want %s or %s" % ((_where(FINDER_KEY), g) + FINDER_SHAPES))
+    shapes = set()
+    for k, (old, new) in sorted(MATRIX.items()):
+        if got[k] == old:
+            shapes.add(False)
+        elif got[k] == new:
+            shapes.add(True)
+        else:
+            bad.append("%s: got %s want %s or %s" % (_where(k), got[k], old, new))
+    if len(shapes) > 1:
+        bad.append("dagrt/function_registry.py: MatMul/Transpose/LinearSolve/SVD.get_result_kinds are not all of "
+                   "the same shape")
+    return restarts, (shapes.pop() if len(shapes) == 1 else None), bad
 
 
 def _class_attr(cls, name):
@@ -255,8 +315,10 @@ def switches(repo):
 def generate(repo):
     out = [HEADER % "c09"]
     got = function_hashes(repo)
-    bad = ["%s %s.%s: got %s want %s" % (k[0], k[1] or "", k[2], got[k], EXPECT[k]) for k in sorted(EXPECT, key=str)
+    bad = ["%s: got %s want %s" % (_where(k), got[k], EXPECT[k]) for k in sorted(EXPECT, key=str)
            if got[k] != EXPECT[k]]
+    restarts, need_arrays, bad2 = two_shape_switches(repo, got)
+    bad += bad2
     if bad:
         raise ShapeError("source of modelled functions changed:\n  " + "\n  ".join(bad))
     data = _parse(repo, "dagrt/data.py")
@@ -279,6 +341,11 @@ def generate(repo):
     out.append("Definition c09_new_entry_marks : bool := %s." % coq_bool(marks))
     out.append("Definition c09_isnan_any : bool := %s." % coq_bool(isnan_any))
     out.append("Definition c09_conflict_raises : bool := %s." % coq_bool(raises))
+    out.append("(* dagrt/data.py SymbolKindFinder.__call__: `if result.is_changed(): break` before giving up *)")
+    out.append("Definition c09_finder_restarts : bool := %s." % coq_bool(restarts))
+    out.append("(* dagrt/function_registry.py MatMul / Transpose / LinearSolve / SVD .get_result_kinds:\n"
+               "   UnableToInferKind unless the matrix arguments are Arrays *)")
+    out.append("Definition c09_matrix_need_arrays : bool := %s." % coq_bool(need_arrays))
     exact, prefixes, ie, ip = state_facts(repo)
     out.append("Definition c09_state_exact : list string := %s." % coq_string_list(exact))
     out.append("Definition c09_state_prefixes : list string := %s." % coq_string_list(prefixes))
